@@ -1,9 +1,9 @@
 (* Model/Tables.v — executable model of the sfnt table readers/writers C15 is anchored in
    (src/tables.rs, src/tables/os2.rs, src/post.rs, src/tables/loca.rs, src/tables/glyf.rs).
    Straight-line parts come from Gen/TableLayouts.v (regenerated from the Rust on every run) and are
-   interpreted by Model/Layout.v; the variable-size structure around them is written here, function
+   interpreted by Model/TableLayout.v; the variable-size structure around them is written here, function
    by function after the Rust.  No proofs in this file. *)
-From AV Require Import Base.Prelude Gen.ReaderPrims Model.Reader Model.ReaderExt Model.Layout Gen.TableLayouts.
+From AV Require Import Base.Prelude Gen.ReaderPrims Model.Reader Model.ReaderExt Model.TableLayout Gen.TableLayouts.
 Open Scope Z_scope.
 
 (* ---------- integer conversions used by the writers: u16::try_from(x)? etc. -> WriteError::BadValue *)
